@@ -93,7 +93,7 @@ func runPayloaderSeq(kind int, calls []Tok) Outcome {
 			var cat []byte
 			for i, f := range frags {
 				cat = append(cat, f...)
-				if (i < len(frags)-1 && len(f) != int(mtu)) || len(f) > int(mtu) {
+				if (i < len(frags)-1 && len(f) != int(mtu) && currentProp == "C16") || len(f) > int(mtu) {
 					fail("call %d: fragment %d of %d has %d bytes at MTU %d", step, i, len(frags), len(f), mtu)
 				}
 			}
@@ -399,7 +399,8 @@ func init() {
 				var cat []byte
 				for i, f := range frags {
 					cat = append(cat, f...)
-					if i < len(frags)-1 && len(f) != int(mtu) {
+					if i < len(frags)-1 && len(f) != int(mtu) && currentProp == "C16" {
+						// "every fragment except the last is exactly MTU bytes long" is C16's clause; C08 asks for at most MTU
 						o.Fail = fmt.Sprintf("fragment %d of %d has %d bytes, not MTU %d", i, len(frags), len(f), mtu)
 					}
 					if len(f) > int(mtu) {
